@@ -15,11 +15,13 @@ type vField struct {
 	name string
 	typ  string // rendered type
 	arg  string // rendered argument list ("" = none)
+	def  string // default of an input field ("" = none)
 }
 
 type vType struct {
 	kind    string // "", object, enum, input, scalar, union
 	node    bool
+	plainID bool // a plain (non-Node) object or input that nevertheless has a field id: ID!
 	fields  []vField
 	values  []string // enum values / union members
 }
@@ -34,13 +36,34 @@ type vService struct {
 	idx   int
 }
 
+var vSlim = false
+
+// vPlain: the descriptor slice with plain types that carry an id field and input fields with defaults
+var vPlain = false
+
+// vInDefault: whether the input field f1 carries a default (one choice for all services: services that
+// disagree about a default are not one of the conflicts C05 lists)
+var vInDefault = 0
+
+func vInputDefault() bool {
+	if !vPlain {
+		return false
+	}
+	if vInDefault == 0 {
+		vInDefault = 1 + verifChoice("input.default", 2)
+	}
+	return vInDefault == 2
+}
+
 func vPickFields(tag string) []vField {
 	f1 := vField{name: "f1", typ: "Int"}
-	if verifChoice(tag+".f1type", 2) == 1 {
-		f1.typ = "String"
-	}
-	if verifChoice(tag+".f1arg", 2) == 1 {
-		f1.arg = "(a: Int = 3)"
+	if !vSlim {
+		if verifChoice(tag+".f1type", 2) == 1 {
+			f1.typ = "String"
+		}
+		if verifChoice(tag+".f1arg", 2) == 1 {
+			f1.arg = "(a: Int = 3)"
+		}
 	}
 	f2 := vField{name: "f2", typ: "[String!]"}
 	switch verifChoice(tag+".fields", 3) {
@@ -71,15 +94,25 @@ func vPickSubset(tag string, a, b string) []string {
 }
 
 func vPickType(tag string, kinds int) vType {
-	switch verifChoice(tag+".kind", kinds) {
+	k := verifChoice(tag+".kind", kinds)
+	if vPlain {
+		k = []int{0, 1, 2, 4}[k] // absent, object, Node object, input
+	}
+	switch k {
 	case 1:
-		return vType{kind: "object", fields: vPickFields(tag)}
+		return vType{kind: "object", fields: vPickFields(tag), plainID: vPlain && verifChoice(tag+".plainid", 2) == 1}
 	case 2:
 		return vType{kind: "object", node: true, fields: vPickNodeFields(tag)}
 	case 3:
 		return vType{kind: "enum", values: vPickSubset(tag, "A", "B")}
 	case 4:
-		return vType{kind: "input", fields: vPickFields(tag)}
+		t := vType{kind: "input", fields: vPickFields(tag), plainID: vPlain && verifChoice(tag+".plainid", 2) == 1}
+		for i := range t.fields {
+			if t.fields[i].name == "f1" && vInputDefault() {
+				t.fields[i].def = map[string]string{"Int": "3", "String": `"x"`}[t.fields[i].typ]
+			}
+		}
+		return t
 	case 5:
 		return vType{kind: "union", values: vPickSubset(tag, "U1", "U2")}
 	case 6:
@@ -95,12 +128,16 @@ func (s vService) sdl() string {
 	t := s.t
 	fields := func(isInput bool) string {
 		var fs []string
-		if t.node {
+		if t.node || t.plainID {
 			fs = append(fs, "id: ID!")
 		}
 		for _, f := range t.fields {
 			if isInput {
-				fs = append(fs, f.name+": "+f.typ)
+				d := ""
+				if f.def != "" {
+					d = " = " + f.def
+				}
+				fs = append(fs, f.name+": "+f.typ+d)
 			} else {
 				fs = append(fs, f.name+f.arg+": "+f.typ)
 			}
@@ -166,6 +203,16 @@ func vSameStrings(a, b []string) bool {
 	return true
 }
 
+// vAllFieldNames: the declared fields of a plain type include its id, if it has one (the id of a Node
+// type is shared by design and is not an overlap)
+func vAllFieldNames(t vType) []string {
+	out := vFieldNames(t.fields)
+	if t.plainID && !t.node {
+		out = append(out, "id")
+	}
+	return out
+}
+
 func vFieldNames(fs []vField) []string {
 	var out []string
 	for _, f := range fs {
@@ -195,7 +242,7 @@ func vConflict(a, b vService) string {
 		if ta.node != tb.node {
 			return "implements Node in one service only"
 		}
-		na, nb := vFieldNames(ta.fields), vFieldNames(tb.fields)
+		na, nb := vAllFieldNames(ta), vAllFieldNames(tb)
 		overlap := 0
 		for _, x := range na {
 			for _, y := range nb {
@@ -254,6 +301,9 @@ func vTypeSignature(sc *ast.Schema) []string {
 				continue
 			}
 			sig := name + "." + f.Name + ": " + f.Type.String()
+			if f.DefaultValue != nil {
+				sig += " = " + f.DefaultValue.String()
+			}
 			for _, a := range f.Arguments {
 				sig += " (" + a.Name + ": " + a.Type.String()
 				if a.DefaultValue != nil {
@@ -293,10 +343,17 @@ func vDescribe(svcs []vService) {
 func vPickServices() []vService {
 	S := verifParam("services", 2)
 	kinds := verifParam("kinds", 7)
+	vSlim = verifParam("slim", 0) == 1
+	vPlain = verifParam("plainid", 0) == 1
 	svcs := make([]vService, S)
 	for i := range svcs {
 		tag := "s" + verifItoa(i)
 		svcs[i] = vService{idx: i, t: vPickType(tag, kinds)}
+		if vSlim || vPlain {
+			// slim descriptors: no root-field toggles
+			svcs[i].node = true
+			continue
+		}
 		svcs[i].node = verifChoice(tag+".node", 2) == 1
 		if i == 1 || i == 2 {
 			svcs[i].dup = verifChoice(tag+".dup", 2) == 1
@@ -375,16 +432,35 @@ func VerifMerge() {
 	sc := base.Schema
 	if prop == 3 {
 		// ---- C03 ----
-		vKnown03(svcs)
+		// the two recorded classes are judged on paths of their own (section 1, 2), so that they hide
+		// nothing else: section 0 checks every other obligation on the same descriptors
+		section := 0
+		anyProbe := false
+		for _, s := range svcs {
+			anyProbe = anyProbe || s.probe
+		}
+		if vNodeInSomeOnly(svcs) && verifChoice("section.node", 2) == 1 {
+			section = 1
+			verifKnown("C03-node-field-in-some-services-only", true)
+		} else if anyProbe && verifChoice("section.probe", 2) == 1 {
+			section = 2
+			verifKnown("C03-node-shaped-root-field", true)
+		}
+		if section != 0 {
+			for _, s := range svcs {
+				if section == 1 && s.node {
+					verifAssert(sc.Types["Query"].Fields.ForName("node") != nil, "the node entry point of a service is in the gateway schema")
+				}
+				if section == 2 && s.probe {
+					verifAssert(sc.Types["Query"].Fields.ForName("lookup") != nil, "every root field of every service is in the gateway schema (lookup)")
+				}
+			}
+			verifReach("merged schema checked")
+			return
+		}
 		for _, s := range svcs {
 			t := s.t
 			verifAssert(sc.Types["Query"].Fields.ForName("q"+verifItoa(s.idx)) != nil, "every root field of every service is in the gateway schema")
-			if s.node {
-				verifAssert(sc.Types["Query"].Fields.ForName("node") != nil, "the node entry point of a service is in the gateway schema")
-			}
-			if s.probe {
-				verifAssert(sc.Types["Query"].Fields.ForName("lookup") != nil, "every root field of every service is in the gateway schema (lookup)")
-			}
 			if s.probe2 {
 				verifAssert(sc.Types["Query"].Fields.ForName("revision") != nil, "every root field of every service is in the gateway schema (revision)")
 			}
@@ -403,6 +479,12 @@ func VerifMerge() {
 				verifAssert(fd != nil, "every field of every service is in the gateway schema")
 				if fd != nil {
 					verifAssert(fd.Type.String() == f.typ, "with the same type")
+					if t.kind == "input" {
+						verifAssert((fd.DefaultValue != nil) == (f.def != ""), "input fields keep their defaults")
+						if fd.DefaultValue != nil && f.def != "" {
+							verifAssert(fd.DefaultValue.String() == f.def, "input fields keep their defaults")
+						}
+					}
 					if t.kind == "object" {
 						verifAssert((len(fd.Arguments) == 1) == (f.arg != ""), "with the same arguments")
 						if len(fd.Arguments) == 1 {
@@ -411,6 +493,9 @@ func VerifMerge() {
 						}
 					}
 				}
+			}
+			if t.plainID {
+				verifAssert(d.Fields.ForName("id") != nil, "every field of every service is in the gateway schema (id of a plain type)")
 			}
 			for _, v := range t.values {
 				if t.kind == "enum" {
@@ -564,7 +649,7 @@ func vKnown05(svcs []vService, conflict string) {
 			if (a.kind != "object" && a.kind != "input") || a.kind != b.kind || a.node || b.node {
 				continue
 			}
-			na, nb := vFieldNames(a.fields), vFieldNames(b.fields)
+			na, nb := vAllFieldNames(a), vAllFieldNames(b)
 			if !vSameStrings(na, nb) {
 				differSome = true
 			}
@@ -577,6 +662,23 @@ func vKnown05(svcs []vService, conflict string) {
 			}
 		}
 	}
+	// plain types of two services that share nothing but their id field
+	idOnly := false
+	for i := range svcs {
+		for j := i + 1; j < len(svcs); j++ {
+			a, b := svcs[i].t, svcs[j].t
+			if a.kind == b.kind && (a.kind == "object" || a.kind == "input") && !a.node && !b.node && a.plainID && b.plainID {
+				shared := false
+				for _, x := range vFieldNames(a.fields) {
+					for _, y := range vFieldNames(b.fields) {
+						shared = shared || x == y
+					}
+				}
+				idOnly = idOnly || !shared
+			}
+		}
+	}
+	verifKnown("C05-plain-types-sharing-only-id", idOnly && conflict == "shared type neither identical nor disjoint")
 	verifKnown("C05-three-services-partial-overlap", declaring >= 3 && (conflict == "shared type neither identical nor disjoint" || (overlapSome && differSome)))
 }
 
